@@ -153,23 +153,30 @@ def gen_project(dim):
     PS = pr.presets = {}
     two_a = choose(2, 'outputs of A') == 1
     a_outs = ['a1.txt', 'a2.txt'] if two_a else ['a1.txt']
-    PS['BA'] = sym_bool('A.build_by_default'); PS['BB'] = sym_bool('B.build_by_default'); PS['IC'] = sym_bool('C.install')
-    PS['SC'] = sym_bool('C.build_always_stale') if dim != 'consumers' else False
+    # the flags matter for what is built by default / installed: symbolic where the consumers vary; where the INPUTS vary only the index and the install flag are
+    PS['BA'] = sym_bool('A.build_by_default') if dim != 'inputs' else False
+    PS['BB'] = sym_bool('B.build_by_default') if dim != 'inputs' else False
+    PS['IC'] = sym_bool('C.install')
+    PS['SC'] = sym_bool('C.build_always_stale') if dim == 'all' else False
     PS['IA'] = sym_int('index into A', 0, len(a_outs) - 1)
     vary_in = dim in ('inputs', 'all'); vary_co = dim in ('consumers', 'all')
     in_b = choose(7, 'input of B') if vary_in else 2
     in_c = choose(5, 'input of C') if vary_in else 0
-    b_sub = (choose(2, 'B in a subdirectory') == 1) if vary_in else False
+    place = choose(3, 'where B lives') if vary_in else 0          # 0: top level, 1: subdir('sub'), 2: top level with build_subdir : 'deep' (builddir != subdir)
+    b_sub = place == 1
+    EAS = ['plain', 'a\\b', 'keep@INPUT@', '@BUILD_DIR@/y', '@OUTPUT0@']      # extra_args of generator.process(): passed on verbatim - no template substitution, no backslash normalisation
+    ea = EAS[choose(len(EAS), 'generator extra_args')] if (vary_in and in_b == 4) else 'plain'
     extra = choose(7, 'alias / run target') if vary_co else 0        # alias_target() takes whole targets only
     tst = choose(11, 'test') if vary_co else 1
-    bdir = 'sub/' if b_sub else ''
+    bdir = 'sub/' if b_sub else ('deep/' if place == 2 else '')
     # ---- text
     L = ["project('p')", "py = find_program('python3')", "cf = configure_file(output : 'cf.txt', configuration : {'K' : 1})",
-         "g = generator(py, output : ['@BASENAME@.c', '@BASENAME@.h'], arguments : ['-c', 'pass', '@INPUT@', '--pair=@OUTPUT0@,@OUTPUT1@', '@OUTPUT1@'])"]
+         "g = generator(py, output : ['@BASENAME@.c', '@BASENAME@.h'], arguments : ['-c', 'pass', '@INPUT@', '--pair=@OUTPUT0@,@OUTPUT1@', '@OUTPUT1@', '@EXTRA_ARGS@'])"]
     L.append("A = custom_target('A', output : %r, command : %s, '@OUTPUT@'], build_by_default : BA)" % (a_outs, PYCMD))
-    inb_expr = ["'%sin.txt'" % ('../' if b_sub else ''), 'A', 'A[IA]', 'cf', "g.process('%sin.txt')" % ('../' if b_sub else ''), "[A[0], '%sin.txt']" % ('../' if b_sub else ''), None][in_b]
-    bl = "B = custom_target('B', %soutput : 'b.txt', command : %s, %s'@OUTPUT0@'], build_by_default : BB%s)" % (
-        ('input : %s, ' % inb_expr) if inb_expr else '', PYCMD, "'@INPUT@', " if inb_expr else '', ", depends : A, depend_files : files('%sin.txt')" % ('../' if b_sub else '') if in_b == 6 else '')
+    inb_expr = ["'%sin.txt'" % ('../' if b_sub else ''), 'A', 'A[IA]', 'cf', "g.process('%sin.txt', extra_args : ['%s'])" % ('../' if b_sub else '', ea.replace('\\', '\\\\')), "[A[0], '%sin.txt']" % ('../' if b_sub else ''), None][in_b]
+    bl = "B = custom_target('B', %soutput : 'b.txt', command : %s, %s'@OUTPUT0@'], build_by_default : BB%s%s)" % (
+        ('input : %s, ' % inb_expr) if inb_expr else '', PYCMD, "'@INPUT@', " if inb_expr else '', ", depends : A, depend_files : files('%sin.txt')" % ('../' if b_sub else '') if in_b == 6 else '',
+        ", build_subdir : 'deep'" if place == 2 else '')
     files = {'in.txt': '', 'dep.txt': ''}
     if b_sub:
         L.append("subdir('sub')"); files['sub/meson.build'] = bl + '\n'
@@ -205,7 +212,7 @@ def gen_project(dim):
     pr.run_needs = (target_of(X) if extra in (4, 5, 6) else None)
     pr.test_needs = target_of(TX) if tst < 9 else None
     pr.bench_needs = target_of(TX) if tst >= 9 else None
-    pr.tst, pr.extra, pr.in_b, pr.in_c, pr.ia = tst, extra, in_b, in_c, ia
+    pr.tst, pr.extra, pr.in_b, pr.in_c, pr.ia, pr.ea = tst, extra, in_b, in_c, ia, ea
     return pr
 
 
